@@ -50,6 +50,10 @@ type c10World struct {
 	model    map[string]string
 	n        int
 	ns       *namespace.Namespace
+	// pendingUp: terms created by a key rotation whose second half (CreateUpgrade, the
+	// record a standby follows) has not run yet: SealManager.RotateBarrierKey holds only a
+	// read lock, two rotations may overlap (manual rotate vs. the auto-rotate check)
+	pendingUp []uint32
 }
 
 func c10Raw(b SecurityBarrier) *AESGCMBarrier {
@@ -116,6 +120,12 @@ var c10Alphabet = []c10Op{
 	// the same operations with their k-th storage operation failing once; the
 	// process SURVIVES the error (unlike the crash points of part C)
 	{"rotate!", "1"}, {"rotate!", "2"}, {"rotate!", "3"}, {"rotate-root!", "1"}, {"rotate-root!", "2"},
+	// a key rotation in its two halves, so that rotations overlap: begin = Rotate, finish =
+	// CreateUpgrade of the oldest / of the newest rotation still lacking it
+	{"rotate-begin", ""}, {"rotate-finish", "oldest"}, {"rotate-finish", "newest"},
+	// two overlapping rotations completed (composite, so that "then the standby follows" is
+	// within the depth bound): Rotate, Rotate, then the two CreateUpgrade calls in either order
+	{"rotate-overlapped", "oldest-first"}, {"rotate-overlapped", "newest-first"},
 }
 
 // persisted opens a fresh barrier over the same store with the given root key
@@ -216,6 +226,51 @@ func (w *c10World) step(op c10Op) (string, string) {
 		}
 		w.term = nt
 		w.pterm = nt
+	case "rotate-begin":
+		if w.sealed {
+			return "", ""
+		}
+		nt, err := b.Rotate(c10ctx)
+		if err != nil {
+			return "rotate-failed", err.Error()
+		}
+		w.term, w.pterm = nt, nt
+		w.pendingUp = append(w.pendingUp, nt)
+	case "rotate-overlapped":
+		if w.sealed || len(w.pendingUp) > 0 {
+			return "", ""
+		}
+		t1, err := b.Rotate(c10ctx)
+		if err != nil {
+			return "rotate-failed", err.Error()
+		}
+		t2, err := b.Rotate(c10ctx)
+		if err != nil {
+			return "rotate-failed", err.Error()
+		}
+		w.term, w.pterm = t2, t2
+		order := []uint32{t1, t2}
+		if op.Arg == "newest-first" {
+			order = []uint32{t2, t1}
+		}
+		for _, nt := range order {
+			if err := b.CreateUpgrade(c10ctx, nt); err != nil {
+				return "create-upgrade-failed", err.Error()
+			}
+		}
+	case "rotate-finish":
+		if w.sealed || len(w.pendingUp) == 0 {
+			return "", ""
+		}
+		i := 0
+		if op.Arg == "newest" {
+			i = len(w.pendingUp) - 1
+		}
+		nt := w.pendingUp[i]
+		w.pendingUp = append(append([]uint32{}, w.pendingUp[:i]...), w.pendingUp[i+1:]...)
+		if err := b.CreateUpgrade(c10ctx, nt); err != nil {
+			return "create-upgrade-failed", err.Error()
+		}
 	case "rotate!", "rotate-root!":
 		if w.sealed {
 			return "", ""
@@ -312,6 +367,36 @@ func (w *c10World) step(op c10Op) (string, string) {
 		if w.sealed {
 			return "", "" // Seal on a sealed barrier dereferences the nil keyring; Core guards it
 		}
+		if w.faultSeen {
+			// After an operation that reported a storage error the live barrier and the store
+			// may disagree about the root key, and every later operation that persists the
+			// keyring (a rotation) writes it under the key the LIVE barrier holds: which key
+			// opens the store can change again. The store is the truth at the moment everything
+			// is sealed: some root key that was ever in force must open it; that one is the
+			// valid key from now on (found by the C08-style alphabet extension of round 4: the
+			// model used to keep the key determined right after the failed call).
+			cands := append([][]byte{w.root}, w.oldRoots...)
+			var valid []byte
+			for _, c := range cands {
+				if w.persistedTerm(c) != 0 {
+					valid = c
+					break
+				}
+			}
+			if valid == nil {
+				return "store-unsealable-after-failed-operation", "before sealing, after an earlier operation reported a storage error: no root key that was ever in force opens the store"
+			}
+			if !bytes.Equal(valid, w.root) {
+				var olds [][]byte
+				for _, o := range append(append([][]byte{}, w.oldRoots...), w.root) {
+					if !bytes.Equal(o, valid) {
+						olds = append(olds, o)
+					}
+				}
+				w.oldRoots = olds
+				w.root = append([]byte{}, valid...)
+			}
+		}
 		if err := b.Seal(); err != nil {
 			return "seal-failed", err.Error()
 		}
@@ -372,7 +457,9 @@ func (w *c10World) step(op c10Op) (string, string) {
 			w.term = w.pterm
 		}
 	case "standby":
-		if w.faultSeen {
+		if w.faultSeen || len(w.pendingUp) > 0 {
+			// (a rotation still lacking its upgrade record is in progress: the chain a standby
+			// follows is incomplete by design until it finishes)
 			return w.invariant()
 		}
 		s := w.standby
@@ -494,7 +581,7 @@ func (w *c10World) canon() string {
 		sterm = st.ActiveTerm()
 		sroot = bytes.Equal(st.RootKey(), w.root)
 	}
-	return fmt.Sprintf("fault=%v sealed=%v term=%d stored=%d roots=%d keys=%v standbyTerm=%d standbyRootCurrent=%v", w.faultSeen, w.sealed, w.term, w.pterm, len(w.oldRoots), ks, sterm, sroot)
+	return fmt.Sprintf("fault=%v sealed=%v term=%d stored=%d roots=%d keys=%v standbyTerm=%d standbyRootCurrent=%v pendingUpgrades=%v", w.faultSeen, w.sealed, w.term, w.pterm, len(w.oldRoots), ks, sterm, sroot, w.pendingUp)
 }
 
 func c10Replay(nsMode, txn bool, hist []c10Op) (w *c10World, sig, msg string) {
